@@ -233,6 +233,31 @@ Qed.
 Lemma keep_fin_top s o : NS s -> Keep s (fin_top true true true s o).
 Proof. intros N. unfold fin_top. apply keep_finalise. exact N. Qed.
 
+
+(* has this address ever been registered or finalised, according to C17's log *)
+Definition ever (p : N) (l : list RM.event) : bool :=
+  existsb (fun e => match e with
+                    | RM.EvAlloc q _ | RM.EvSpawn q _ | RM.EvFin q => N.eqb q p
+                    | _ => false end) l.
+
+Lemma led_ever l q r : RM.led l q r -> ever q l = true.
+Proof.
+  induction l as [|e l IH]; simpl; [tauto|].
+  destruct e; simpl; intros H.
+  - destruct H as [[-> _]|H]; [rewrite N.eqb_refl; reflexivity | rewrite (IH H); apply orb_true_r].
+  - apply IH. tauto.
+  - apply IH. tauto.
+  - rewrite (IH H). apply orb_true_r.
+  - destruct H as [[-> _]|H]; [rewrite N.eqb_refl; reflexivity | rewrite (IH H); apply orb_true_r].
+  - apply IH. exact H.
+Qed.
+
+Lemma ever_cnt_fin p l : ever p l = false -> cnt_fin p l = 0.
+Proof.
+  induction l as [|e l IH]; simpl; auto. intros H. apply orb_false_iff in H. destruct H as [H1 H2].
+  destruct e; auto. rewrite H1. simpl. auto.
+Qed.
+
 (* ------------------------------------------------------------------ 2. the relation *)
 Section Glue.
   Variable hashf : N -> N.
@@ -794,6 +819,161 @@ Section Glue.
     split; [|split; [|reflexivity]].
     - apply (tab_fields g3); auto.
     - constructor; try apply R3. reflexivity.
+  Qed.
+
+  (* ---------------------------------------------------------------- 5. histories *)
+  Local Notation Cstep := (RP.Gstep hashf d true true).
+  Local Notation Creg := (RM.gc_register hashf gc_swap gc_primes gc_load_num gc_load_den).
+  Local Notation Ccollect := (RM.collect hashf gc_swap gc_primes gc_load_num gc_load_den (RP.d_owns d) (RP.d_spawns d) true true).
+
+  (* mark phase on the concrete table, then the life-cycle machine's sweep with what it left *)
+  Definition csweep_after_mark (g : RM.gc) (ws : list N) (s : st) : st :=
+    match RM.gc_mark hashf g ws with
+    | Some (Some gm) => sweep true finT (c_order gm) (c_marks gm) s
+    | _ => s
+    end.
+
+  (* the transitions of the life-cycle machine, driven by an operation of C17 issued in state g:
+     the registry inputs (sweep order, marks) are read off the concrete table *)
+  Definition cstep (g : RM.gc) (s : st) (o : RM.op) : st :=
+    match o with
+    | RM.OAlloc p r ws =>
+      if negb (RM.running g) then s else
+      let s1 := add_obj (idn p) (if r then KRoot else KManaged) false s in
+      let s2 := set_reg ((idn p, r) :: reg s1) s1 in
+      if mitems s2 <? nitems s2
+      then csweep_after_mark (fst (Creg g p r (RM.EvAlloc p r))) ws s2
+      else s2
+    | RM.ORem p => gc_rem true finT s (idn p)
+    | RM.OFinRaw p => finT (add_obj (idn p) KRaw false s) (idn p)
+    | RM.OCollect ws => csweep_after_mark g ws s
+    | RM.OSweep => sweep true finT (c_order g) (c_marks g) s
+    | RM.OStop => set_running false s
+    | RM.OStart => set_running true s
+    | RM.OMem _ => s
+    end.
+
+  Fixpoint crun (ops : list RM.op) (g : RM.gc) (s : st) : RM.gc * st :=
+    match ops with
+    | [] => (g, s)
+    | o :: r => crun r (fst (Cstep g o)) (cstep g s o)
+    end.
+
+  (* start: the ownership map of the life-cycle machine is the (static) one of C17's destructors *)
+  Definition cinit : st := set_owned own0 init.
+
+  (* besides C17's allocator contract: addresses are not reused (the life-cycle machine's
+     identities are never reused), and del_raw is applied to fresh addresses only *)
+  Definition gadm (g : RM.gc) (o : RM.op) : Prop :=
+    match o with
+    | RM.OAlloc p _ _ => RM.running g = true -> ever p (RM.evs g) = false
+    | RM.OFinRaw p => ever p (RM.evs g) = false
+    | _ => True
+    end.
+  Fixpoint gadm_run (ops : list RM.op) (g : RM.gc) : Prop :=
+    match ops with
+    | [] => True
+    | o :: r => gadm g o /\ gadm_run r (fst (Cstep g o))
+    end.
+
+  Record GL (g : RM.gc) (s : st) : Prop := {
+    gl_inv : RP.Inv hashf g;
+    gl_quiet : RP.Quiet g;
+    gl_rel : Rel g s;
+    gl_ginv : GInv [] s;
+    gl_known : forall x, info s x <> None -> exists p, x = idn p /\ ever p (RM.evs g) = true
+  }.
+
+  Lemma GL_Tab g s : GL g s -> Tab g.
+  Proof. intros L. apply Inv_Tab; [apply L|]. intros _. apply L. Qed.
+
+  Lemma rel_ns g s : Rel g s -> NS s.
+  Proof. intros R x. apply R. Qed.
+
+  Lemma GL_init : GL RM.gc_init cinit.
+  Proof.
+    destruct (RP.Inv_init hashf) as [Hi Hq]. constructor; auto.
+    - constructor.
+      + intros x r. simpl. tauto.
+      + reflexivity.
+      + reflexivity.
+      + reflexivity.
+      + intros p. reflexivity.
+      + intros x _. reflexivity.
+      + intros x. reflexivity.
+    - destruct SInv_init as [S _]. destruct (si_g _ S). constructor; assumption.
+    - intros x H. exfalso. apply H. reflexivity.
+  Qed.
+
+  Lemma ever_mono e l p : ever p l = true -> ever p (e :: l) = true.
+  Proof. intros H. simpl. rewrite H. apply orb_true_r. Qed.
+
+  (* registration frame: GC_Set up to the threshold test touches neither mitems nor the past log *)
+  Lemma register_frame g p r ev g3 o :
+    Creg g p r ev = (g3, o) -> o = RM.OOk -> RM.mitems g3 = RM.mitems g /\ RM.evs g3 = ev :: RM.evs g.
+  Proof.
+    unfold RM.gc_register. set (g1 := RM.set_bounds _ _ _).
+    assert (Hrm : forall g2, RM.resize_more hashf gc_swap gc_primes gc_load_num gc_load_den g1 = Some g2 ->
+              RM.mitems g2 = RM.mitems g /\ RM.evs g2 = RM.evs g).
+    { intros g2. unfold RM.resize_more. destruct (_ <? _).
+      - unfold RM.g_rehash. destruct (RM.rh_rehash _ _ _ _); [|discriminate]. intros H; inversion H; subst. auto.
+      - intros H; inversion H; subst. auto. }
+    destruct (RM.resize_more hashf gc_swap gc_primes gc_load_num gc_load_den g1) as [g2|]; [|intros H ->; inversion H].
+    destruct (Hrm g2 eq_refl) as [Hm He].
+    destruct (RM.nslots g2 =? 0); [intros H ->; inversion H|].
+    destruct (RM.rh_insert _ _ _ _) as [[sl b]|]; [|intros H ->; inversion H].
+    intros H _. inversion H; subst. simpl. rewrite Hm, He. auto.
+  Qed.
+
+  (* the mark phase only sets mark bits *)
+  Lemma rel_mark g gm s : RP.PW (RM.slots g) (RM.slots gm) -> RP.same_rest g gm -> Rel g s -> Rel gm s.
+  Proof.
+    intros Hpw (Hn & Hm & _ & _ & Hr & Hp & He) R. constructor; try apply R.
+    - intros x r. rewrite (rel_reg g s R), !in_abs_reg. split.
+      + intros [e [He' [Hx Hr']]]. destruct (RP.PW_holds_rev _ _ _ Hpw He') as [e' [H1 [H2 H3]]].
+        exists e'. split; [exact H1|]. split; congruence.
+      + intros [e [He' [Hx Hr']]]. destruct (RP.PW_holds _ _ _ Hpw He') as [e' [H1 [H2 H3]]].
+        exists e'. split; [exact H1|]. split; congruence.
+    - rewrite Hp. apply R.
+    - rewrite Hr. apply R.
+    - rewrite Hm. apply R.
+    - intros p. rewrite He. apply R.
+  Qed.
+
+  Lemma tabm_mark g gm : Tab g -> RP.PW (RM.slots g) (RM.slots gm) -> RP.same_rest g gm -> TabM gm.
+  Proof.
+    intros T Hpw (Hn & _). constructor.
+    - apply (RP.Core_PW hashf _ _ Hpw). apply T.
+    - rewrite Hn, (RP.PW_occupied _ _ Hpw). apply T.
+    - unfold RM.nslots. rewrite Hn, (RP.PW_length _ _ Hpw). apply T.
+  Qed.
+
+  (* GC_Mark; GC_Sweep on the concrete table *)
+  Lemma glue_collect g s ws g' o :
+    RP.Inv hashf g -> RP.Quiet g -> Rel g s -> GInv [] s ->
+    Ccollect g ws = (g', o) -> o = RM.OOk ->
+    Rel g' (csweep_after_mark g ws s) /\ GInv [] (csweep_after_mark g ws s) /\ Keep s (csweep_after_mark g ws s).
+  Proof.
+    intros Hi Hq R G H Ho. pose proof (Inv_Tab g Hi (fun _ => Hq)) as T.
+    unfold RM.collect in H. unfold csweep_after_mark.
+    destruct (RP.gc_mark_ok hashf 0%N (fun _ => []) (fun _ => []) g ws (t_core g T)) as [gm [Hmk [Hpw Hsr]]].
+    { intros Hn Hz. destruct (t_room g T) as [Hz'|Hlt]; [|lia]. pose proof (t_count g T) as Hc.
+      unfold RM.nslots in Hz. rewrite Hc in Hn. apply Hn. unfold RobinHood.occupied.
+      destruct (entries (RM.slots g)) as [|e es] eqn:He; [reflexivity|]. exfalso.
+      assert (Hh : Holds (RM.slots g) e) by (apply in_entries; rewrite He; left; reflexivity).
+      destruct Hh as [i [h Hat]]. pose proof (at_some_lt _ _ _ _ Hat). lia. }
+    rewrite Hmk in H |- *.
+    destruct (Csweep gm) as [g2|] eqn:Hsw; [|inversion H; subst; discriminate].
+    inversion H; subst g' o. clear H.
+    pose proof (rel_mark g gm s Hpw Hsr R) as Rm.
+    pose proof (tabm_mark g gm T Hpw Hsr) as TMm.
+    assert (Hqm : RM.pending gm = []) by (destruct Hsr as (_ & _ & _ & _ & _ & Hp & _); rewrite Hp; exact Hq).
+    destruct (glue_sweep [] gm s g2 TMm Hqm Rm G Hsw) as (_ & R2 & _).
+    split; [exact R2|]. split.
+    - assert (Hpe : pend s = []) by (rewrite (rel_pend g s R), Hq; reflexivity).
+      destruct (LifecycleProofs.sweep_ok finT (S (measure s)) (fin_top_ok _) (c_order gm) (c_marks gm) [] s G Hpe ltac:(lia)) as (G' & _).
+      exact G'.
+    - apply keep_sweep; [intros; apply keep_fin_top; assumption | apply (rel_ns g); exact R].
   Qed.
 
 End Glue.
